@@ -6,7 +6,8 @@
    Lockable: the model only uses lock (blocks while owned) and unlock. *)
 From Coq Require Import List NArith Bool.
 From Pika Require Import Base.Conc Base.Agent Model.CondVar
-  Proofs.CondVarInvA Proofs.CondVarInvB Proofs.CondVarInvC Proofs.CondVarProofs Proofs.CondVarStop.
+  Proofs.CondVarInvA Proofs.CondVarInvB Proofs.CondVarInvC Proofs.CondVarProofs Proofs.CondVarStop
+  Proofs.CondVarTimedStop.
 Import ListNotations.
 
 (* releasing the user lock and becoming a waiter is atomic with respect to notifiers: whenever another
@@ -114,6 +115,68 @@ Theorem C07_stop_wait_returns : forall isos progs sched t,
 Proof. exact stop_wait_returns. Qed.
 Print Assumptions C07_stop_wait_returns.
 
+(* timed stop-token wait  condition_variable_any::wait_until / wait_for (lock, stop_token, t, pred)  (pika
+   tasks), in every reachable state of every program / schedule / deadline oracle, for a thread t inside it:
+   (1) it is never blocked in suspend (it sleeps; the deadline oracle always enables it — C07_timed_stop_wait_steps);
+   (2) when nothing can move any more it is waiting for the user lock held by ANOTHER thread: nothing of the
+       condition variable or of the stop machinery holds it up;
+   (3) past the stop_requested() re-check (made under the internal lock) its stop_callback is registered, so a
+       request_stop issued from then on runs it;
+   (4) whenever stop has been requested while it is queued (or about to be) a notify_all that will take its
+       entry is pending — the stop request issued after the registration is not lost;
+   (5) once stop has been requested it is on a loop-free path to its return: each enabled step of its own
+       (deadline passed when it looks at the clock) returns or strictly decreases a rank <= 11;
+   (6) when it returns the caller owns the user lock and the value is pred() at that moment. *)
+Theorem C07_timed_stop_wait_returns : forall isos progs sched t,
+  (forall w, isos w = false) ->
+  let c := cv_run isos sched progs in
+  cur_op (snd c t) = CWaitStopFor ->
+  blocked (cag (fst c) t) = false /\
+  (cv_stuck isos (fst c) (snd c) ->
+     exists sg n, cpc (snd c t) = CLockU sg /\ uowner (fst c) = Some n /\ n <> t) /\
+  (past_chk (cpc (snd c t)) = true -> reg (snd c t) = true /\ In t (cbs (fst c))) /\
+  (stopreq (fst c) = true ->
+     (cpc (snd c t) = CUnlockU \/ cpc (snd c t) = CPush \/
+      (in_wait (cpc (snd c t)) = true /\ In t (cqueue (fst c)))) ->
+     exists n, pending_all (cpc (snd c n)) = true) /\
+  (stopreq (fst c) = true -> 1 <= ts_rank (cpc (snd c t)) -> cv_enabled isos t (fst c) (snd c t) = true ->
+     let s := cv_tstep isos true t (fst c) (snd c t) in
+     stopreq (fst s) = true /\
+     ((exists b, cvlog (fst s) = ERet t CWaitStopFor b :: cvlog (fst c) /\
+                 ctodo (snd s) = tl (ctodo (snd c t)) /\ cpc (snd s) = CIdle) \/
+      (cur_op (snd s) = CWaitStopFor /\ 1 <= ts_rank (cpc (snd s)) < ts_rank (cpc (snd c t))))) /\
+  (forall late b, let s := cv_tstep isos late t (fst c) (snd c t) in
+     cvlog (fst s) = ERet t CWaitStopFor b :: cvlog (fst c) ->
+     uowner (fst s) = Some t /\ hu (snd s) = true /\ b = flag (fst s)).
+Proof. exact timed_stop_wait_returns. Qed.
+Print Assumptions C07_timed_stop_wait_returns.
+
+(* the deciding steps of the timed stop-token wait, from any state: the re-check under the internal lock
+   returns false once stop has been requested (and releases the internal lock); after the detail wait
+   should_stop = timeout || stop_requested(); with should_stop the wait re-locks U and returns pred(), without
+   it re-evaluates the predicate; a sleeper is always enabled and leaves the sleep once the deadline passed *)
+Theorem C07_timed_stop_wait_steps : forall isos late t g td h r,
+  let at_pc p := {| ctodo := CWaitStopFor :: td; cpc := p; hu := h; reg := r |} in
+  (stopreq g = true ->
+     let s := cv_tstep isos late t g (at_pc CStopChk) in
+     cvlog (fst s) = ERet t CWaitStopFor false :: cvlog g /\ ilock (fst s) = None /\ ctodo (snd s) = td) /\
+  (forall sg, let s := cv_tstep isos late t g (at_pc (CStopChk2 sg)) in
+     cpc (snd s) = CLockU (sg && negb (stopreq g)) /\ ilock (fst s) = None) /\
+  (uowner g = None ->
+     let s := cv_tstep isos late t g (at_pc (CLockU false)) in
+     cvlog (fst s) = ERet t CWaitStopFor (flag g) :: cvlog g /\ uowner (fst s) = Some t /\ ctodo (snd s) = td) /\
+  (uowner g = None -> cpc (snd (cv_tstep isos late t g (at_pc (CLockU true)))) = CPredTest) /\
+  (cv_enabled isos t g (at_pc CSleep) = true /\ cpc (snd (cv_tstep isos true t g (at_pc CSleep))) = CRelockI).
+Proof. exact timed_stop_steps. Qed.
+Print Assumptions C07_timed_stop_wait_steps.
+
+(* a timed wait (any of the three timed forms, tasks and OS threads) never suspends *)
+Theorem C07_timed_never_blocked : forall isos progs sched t,
+  let c := cv_run isos sched progs in
+  is_timed (cur_op (snd c t)) = true -> blocked (cag (fst c) t) = false.
+Proof. exact timed_never_blocked. Qed.
+Print Assumptions C07_timed_never_blocked.
+
 (* pika tasks: a notifier never blocks inside its critical section *)
 Theorem C07_task_notify_never_blocks : forall isos t g l,
   (forall w, isos w = false) -> holds_i (cpc l) = true -> cv_enabled isos t g l = true.
@@ -176,3 +239,49 @@ Example C07_example_stop_wait :
   rev (cvlog (fst c)) = [EPush 0; ENotify 1 true 1; ERet 0 CWaitStop false] /\
   uowner (fst c) = Some 0 /\ cbs (fst c) = [] /\ ctodo (snd c 0) = [] /\ ctodo (snd c 1) = [].
 Proof. vm_compute. repeat split. Qed.
+
+(* timed stop-token wait: the waiter registers its callback, passes the re-check, is queued and sleeps;
+   request_stop (after the registration) takes its entry; at its deadline it sees stop_requested and returns
+   pred() = false holding U, its callback removed *)
+Example C07_example_timed_stop_request_after_registration :
+  let progs := fun t => match t with 0 => [CLockUOp; CWaitStopFor] | 1 => [CRequestStop] | _ => [] end in
+  let c := cv_run (fun _ => false) (rr 10 0 ++ rr 5 1 ++ [(0,true)] ++ rr 4 0) progs in
+  rev (cvlog (fst c)) = [EPush 0; ENotify 1 true 1; ERet 0 CWaitStopFor false] /\
+  uowner (fst c) = Some 0 /\ cbs (fst c) = [] /\ ilock (fst c) = None /\ cqueue (fst c) = [] /\
+  ctodo (snd c 0) = [] /\ ctodo (snd c 1) = [].
+Proof. vm_compute. repeat split. Qed.
+
+(* ... a request_stop that arrives between the callback registration and the re-check under the internal lock
+   finds nobody queued, but the re-check sees it: the wait returns false without ever sleeping *)
+Example C07_example_timed_stop_request_before_recheck :
+  let progs := fun t => match t with 0 => [CLockUOp; CWaitStopFor] | 1 => [CRequestStop] | _ => [] end in
+  let c := cv_run (fun _ => false) (rr 4 0 ++ rr 4 1 ++ rr 2 0) progs in
+  rev (cvlog (fst c)) = [ENotify 1 true 0; ERet 0 CWaitStopFor false] /\
+  uowner (fst c) = Some 0 /\ cbs (fst c) = [] /\ ilock (fst c) = None /\ ctodo (snd c 0) = [].
+Proof. vm_compute. repeat split. Qed.
+
+(* ... nobody notifies, nobody requests stop: at the deadline the wait returns pred() — false when the
+   predicate is still false, true when somebody set it (without notifying) in the meantime *)
+Example C07_example_timed_stop_deadline :
+  let progs := fun t => match t with
+     | 0 => [CLockUOp; CWaitStopFor; CUnlockUOp] | 1 => [CLockUOp; CSetFlag true; CUnlockUOp]
+     | 2 => [CLockUOp; CWaitStopFor] | _ => [] end in
+  let c := cv_run (fun _ => false) (rr 10 0 ++ rr 3 1 ++ [(0,true)] ++ rr 5 0 ++ [(1,false)]) progs in
+  let d := cv_run (fun _ => false) (rr 10 2 ++ [(2,true)] ++ rr 4 2) (fun t => match t with 2 => progs 2 | _ => [] end) in
+  rev (cvlog (fst c)) = [EPush 0; ERet 0 CWaitStopFor true] /\ uowner (fst c) = None /\ cbs (fst c) = [] /\
+  rev (cvlog (fst d)) = [EPush 2; ERet 2 CWaitStopFor false] /\ uowner (fst d) = Some 2 /\ cbs (fst d) = [].
+Proof. vm_compute. repeat split. Qed.
+
+(* ... and part (2) of C07_timed_stop_wait_returns is not vacuous: thread 1 takes the user lock while thread 0
+   sleeps and never releases it; after its deadline thread 0 is stuck exactly at the re-lock of U (should_stop
+   already decided), everything of the condition variable released *)
+Example C07_example_timed_stop_stuck_on_user_lock :
+  let progs := fun t => match t with 0 => [CLockUOp; CWaitStopFor] | 1 => [CLockUOp] | _ => [] end in
+  let c := cv_run (fun _ => false) (rr 10 0 ++ rr 1 1 ++ [(0,true)] ++ rr 4 0) progs in
+  cv_stuck (fun _ => false) (fst c) (snd c) /\ cur_op (snd c 0) = CWaitStopFor /\
+  cpc (snd c 0) = CLockU false /\ uowner (fst c) = Some 1 /\ ilock (fst c) = None /\ cqueue (fst c) = [] /\
+  blocked (cag (fst c) 0) = false.
+Proof.
+  cbv zeta. split; [|vm_compute; repeat split].
+  intros t. destruct t as [|[|t]]; vm_compute; reflexivity.
+Qed.
